@@ -40,6 +40,32 @@ let raw : (rpfx, n rtable) inst = {
   empty = x_r_empty; step = x_r_step;
   get = x_r_get; lpm = x_r_lpm; longer = x_r_longer; dump = x_r_dump; count = x_r_count }
 
+(* machine-word prefixes (Model/NetArith.v records) from bit strings *)
+let z_of_bits (b : bool list) : z =
+  let rec strip = function false :: r -> strip r | l -> l in
+  match strip b with
+  | [] -> Z0
+  | _ :: rest -> Zpos (List.fold_left (fun acc x -> if x then XI acc else XO acc) XH rest)
+
+let pad (w : int) (b : bool list) : bool list = b @ List.init (w - List.length b) (fun _ -> false)
+let rec take n l = if n <= 0 then [] else match l with [] -> [] | x :: r -> x :: take (n - 1) r
+let rec drop n l = if n <= 0 then l else match l with [] -> [] | _ :: r -> drop (n - 1) r
+
+let word_pfx (w : int) (addrbits : bool list) (len : int) : pfx =
+  let a = pad w addrbits in
+  if w = 32 then { addr = { hi = Z0; lo = z_of_bits a; legacy = true }; plen = z_of_int len }
+  else { addr = { hi = z_of_bits (take 64 a); lo = z_of_bits (drop 64 a); legacy = false }; plen = z_of_int len }
+
+(* the trie over machine words with the prefix operations regenerated from the Go source *)
+let word (w : int) : (pfx, (pfx, n) table) inst = {
+  parse = (fun s ->
+    match String.split_on_char '/' s with
+    | [a; l] -> word_pfx w (bits_of_string a) (int_of_string l)          (* raw: all address bits + length *)
+    | _ -> let b = bits_of_string s in word_pfx w b (List.length b));
+  show = (fun p -> "w" ^ hex_of_z p.addr.hi ^ ":" ^ hex_of_z p.addr.lo ^ "/" ^ string_of_int (int_of_z p.plen));
+  empty = x_g_empty; step = x_g_step;
+  get = x_g_get; lpm = x_g_lpm; longer = x_g_longer; dump = x_g_dump; count = x_g_count }
+
 let obs_n = ref 0
 
 (* returns Some (token index, token, model, impl) for the first differing observation *)
@@ -88,7 +114,7 @@ let run_case (type p t) (m : (p, t) inst) (inp : string list) (obs : string list
   !bad
 
 let () =
-  let compared = ref 0 and mism = ref 0 and nraw = ref 0 and rawmism = ref 0 in
+  let compared = ref 0 and mism = ref 0 and nraw = ref 0 and rawmism = ref 0 and nword = ref 0 in
   iter_trace Sys.argv.(1) (fun id inp obs ->
     incr compared;
     let israw = List.mem "T=rn" inp in
@@ -101,9 +127,15 @@ let () =
       report "case=%s impl panicked, model does not\n" id
     else begin
       let bad = if israw then (incr nraw; run_case raw inp obs) else run_case canon inp obs in
-      match bad with
+      (match bad with
+       | None -> ()
+       | Some (i, tok, mo, io) -> report "case=%s token=%d(%s) model=%s impl=%s\n" id i tok mo io);
+      (* second model: the machine-word instance (C01_refines_ipv4/6_gen are about it) *)
+      let w = if List.mem "W=6" inp then 128 else 32 in
+      incr nword;
+      match run_case (word w) inp obs with
       | None -> ()
-      | Some (i, tok, mo, io) -> report "case=%s token=%d(%s) model=%s impl=%s\n" id i tok mo io
+      | Some (i, tok, mo, io) -> report "case=%s word-model: token=%d(%s) model=%s impl=%s\n" id i tok mo io
     end);
-  Printf.printf "STATS compared=%d mismatches=%d observations=%d raw_cases=%d raw_mismatches=%d\n"
-    !compared !mism !obs_n !nraw !rawmism
+  Printf.printf "STATS compared=%d mismatches=%d observations=%d raw_cases=%d raw_mismatches=%d word_model_cases=%d\n"
+    !compared !mism !obs_n !nraw !rawmism !nword
